@@ -56,6 +56,8 @@ def enum_values(relpath, cls):
                     out[s.targets[0].id] = s.value.value
     return out
 
+ARM_IDIOM = ("try:\n    loop = asyncio.get_running_loop()\n    self.timeout_handle = loop.call_later(REQUEST_TIMEOUT, self._handle_timeout)\n"
+             "except RuntimeError:\n    self.timeout_handle = None")
 TIMER_IDIOM = "if self.timeout_handle:\n    self.timeout_handle.cancel()\n    self.timeout_handle = None"
 
 class StFn(Fn):
@@ -173,8 +175,14 @@ class StFn(Fn):
         text = ast.unparse(s)
         if text in self.spec.get("skip", []):
             return self.block(rest, k, kc)
+        if isinstance(s, ast.AnnAssign) and s.value is not None and isinstance(s.target, ast.Attribute):
+            s = ast.Assign(targets=[s.target], value=s.value, lineno=s.lineno)
         if text == TIMER_IDIOM:
             return "(let s__ := cancel_timer s__ in %s)" % self.block(rest, k, kc)
+        if text == ARM_IDIOM:
+            # loop.call_later(REQUEST_TIMEOUT, self._handle_timeout): the request timer is armed ("no running loop" is
+            # outside the model)
+            return "(let s__ := upd_timer_handle s__ true in %s)" % self.block(rest, k, kc)
         if isinstance(s, ast.Expr) and isinstance(s.value, ast.Call):
             v = s.value
             key = self.call_key(v) if isinstance(v.func, (ast.Name, ast.Attribute)) else ""
@@ -286,6 +294,8 @@ ATTRS = {
     "self.upload_handler": ("has_upload", "bool"),
     "self.middleware": ("has_mw", "bool"),
     "status.value": ("status", "Z"),
+    # the request timer's handle: None <-> not armed (the model's three-state timer through upd_timer_handle)
+    "self.timeout_handle": ("(timer_live s__)", "bool", "upd_timer_handle"),
 }
 SKIP_CERT = [
     "client_cert = self.get_peer_certificate()",
@@ -305,7 +315,12 @@ SPAWN_ACTIONS = {
     "self.upload_handler.handle_upload": (["self.titan_request"], "AUpload id__ (tline s__) (content s__)"),
 }
 
+INIT_SKIP = ["self.request_handler = request_handler", "self.middleware = middleware", "self.upload_handler = upload_handler",
+             "self.peer_name: tuple[str, int] | None = None", "self.request_start_time: float | None = None"]
+CM_SKIP = ["if self.transport:\n    self.peer_name = self.transport.get_extra_info('peername')", "self.request_start_time = time.time()"]
 SPECS = [
+    dict(func="__init__", name="gen_init", params=[], skip=INIT_SKIP),
+    dict(func="connection_made", name="gen_connection_made", params=[], rename={"transport": "true"}, types={"transport": "bool"}, skip=CM_SKIP),
     dict(func="data_received", name="gen_data_received", params=[("data", "str")],
          callee_params=[("send_error", ERR), ("handle_titan_url", STU), ("handle_gemini", STU), ("process_titan_upload", ST1)],
          callees={"self._send_error_response": ("send_error", None), "self._handle_titan_url": ("handle_titan_url", None),
@@ -406,6 +421,11 @@ def main(out_path):
     import py2coq_server2
     chunks.append(py2coq_server2.main(None))
     chunks.append(closed_definitions(SPECS + py2coq_server2.SPECS2))
+    # the delay of the request timer (module constant REQUEST_TIMEOUT, seconds), in milliseconds
+    rt = [n.value.value for n in tree.body if isinstance(n, ast.Assign) and len(n.targets) == 1 and isinstance(n.targets[0], ast.Name)
+          and n.targets[0].id == "REQUEST_TIMEOUT" and isinstance(n.value, ast.Constant) and isinstance(n.value.value, (int, float))]
+    if len(rt) != 1 or rt[0] * 1000 != int(rt[0] * 1000): raise Untranslatable("REQUEST_TIMEOUT is not a module constant in whole milliseconds")
+    chunks.append("\nDefinition gen_request_timeout_ms : N := %d%%N.\n" % int(rt[0] * 1000))
     open(out_path, "w").write("".join(chunks))
     print("py2coq_server: %d methods translated" % (len(SPECS) + len(py2coq_server2.SPECS2)))
 
